@@ -63,6 +63,15 @@ class RepackMachine(Machine):
                 pk = self.K.kind(e.func.value, fr)
             except Exception:
                 pk = None
+            if pk is not None and pk[0] in ('path', 'join') and self._own(pk):
+                exists = pol != neg
+                if exists and st[2] == 'absent':
+                    return None
+                if not exists:
+                    s = list(st)
+                    s[2] = 'absent'  # the pack's own file is known not to exist on this path
+                    return tuple(s)
+                return st
             if pk is not None and pk[0] in ('path', 'join') and in_area(self.K, pk, 'packs') and self._tmp(pk):
                 exists = pol != neg
                 if exists and st[3] == 'absent':
@@ -174,6 +183,9 @@ class RepackMachine(Machine):
         idx, pending, P, tmp, tmpD, refs = st
         out = []
         if node is g.exit:
+            if idx == 'old' and P == 'orig':
+                out.append(Violation(self.rule, node, st, 'repack_pack returns normally without having rewritten (or removed) the pack: bytes that no index row references, e.g. those of deleted '
+                                     'objects, stay in the pack file'))
             if idx == 'tmp':
                 out.append(Violation(self.rule, node, st, 'repack returns normally with the index still pointing to the temporary pack'))
             if pending is not None:
